@@ -586,6 +586,8 @@ class NumpyMixin:
             if len(args) == 2:
                 # right half plane (second argument >= 0): the angle is within a quarter turn
                 axiom(z3.Implies(args[1] >= 0, z3.And(r >= -HALFPI, r <= HALFPI)))
+                # upper half plane (first argument >= 0): the angle is non-negative
+                axiom(z3.Implies(args[0] >= 0, r >= 0))
         elif name in ("arctan", "atan"):
             axiom(z3.And(r >= -HALFPI, r <= HALFPI, z3.Implies(x > 0, r > 0), z3.Implies(x < 0, r < 0)))
         elif name in ("log", "log10"):
